@@ -49,7 +49,7 @@ RULE = ("grids: 2-D Cartesian (nodes perturbed by 0 / 1/8 / 1/4 of the mesh size
         "3-D Cartesian (plain anisotropic, sheared by a dyadic affine map, or node-perturbed so that faces become non-planar) and structured "
         "tetrahedra with perturbed nodes; 1..4 cells per direction incl. single cells and single rows; all node coordinates dyadic. "
         "All mechanical boundary faces Dirichlet, data from u = A x + b (A general / symmetric / skew / trace-free / zero, dyadic). "
-        "1-2 coupling keys per case: python float or int coefficient (incl. negative, zero), uniform symmetric positive definite tensor, or "
+        "1-2 coupling keys per case: python float or int coefficient (non-negative, incl. zero; negative ones are rejected by SecondOrderTensor), uniform symmetric positive definite tensor, or "
         "cell-wise varying scalar (divergence part only; for these the coded first-side force and pressure-jump right-hand side are tied to "
         "the model). Constant pressure p dyadic. Configurations: continuity point eta default / 0 / 1/4 / 1/2, inverter python / numba, "
         "1-3 subproblems, partial discretisation around specified cells (rows are then required to be either untouched or exact, and the "
@@ -252,7 +252,7 @@ def _dy(rng, lo, hi, den):
 def _gen_key(rng, name, dim):
     mode = rng.choice(["scalar", "scalar", "scalar", "tensor", "tensor", "tensor", "hetero", "hetero"])
     if mode == "scalar":
-        v = rng.choice([Fraction(1), Fraction(3, 4), Fraction(1, 2), Fraction(2), Fraction(-1), Fraction(5, 4), Fraction(3), Fraction(0), Fraction(-1, 2)])
+        v = rng.choice([Fraction(1), Fraction(3, 4), Fraction(1, 2), Fraction(2), Fraction(1, 4), Fraction(5, 4), Fraction(3), Fraction(0), Fraction(3, 2)])
         return {"name": name, "mode": "scalar", "a": str(v), "as_int": bool(v.denominator == 1 and rng.random() < 0.5)}
     if mode == "tensor":
         diag = [str(rng.choice([Fraction(1), Fraction(3, 2), Fraction(2), Fraction(3), Fraction(5, 4)])) for _ in range(dim)]
@@ -305,7 +305,9 @@ def gen_case(rng, tier):
                 A[i][j] = _dy(rng, -4, 4, 8) or Fraction(1)
                 A[j][i] = -A[i][j]
     b = [_dy(rng, -4, 4, 4) for _ in range(dim)]
-    p = rng.choice([_dy(rng, -4, 4, 4), _dy(rng, -4, 4, 4), _dy(rng, 1, 4, 4), Fraction(0)])
+    p = rng.choice([_dy(rng, -4, 4, 4) or Fraction(-3, 2), _dy(rng, 1, 4, 4), _dy(rng, 1, 4, 4)])
+    if rng.random() < 0.05:
+        p = Fraction(0)
     keys = [_gen_key(rng, "k0", dim)]
     if rng.random() < 0.5:
         keys.append(_gen_key(rng, "k1", dim))
@@ -411,7 +413,9 @@ def _real(case):
         if shapes_ok:
             res["div"] = Dm @ uc + Bm @ ub
             res["force"] = (Gm @ pvec).reshape((d, nf), order="F")
-            Dc, Bc, Gc = Dm.tocsr(), Bm.tocsr(), Gm.tocsr()
+            Dc, Bc, Gc = Dm.tocsr().copy(), Bm.tocsr().copy(), Gm.tocsr().copy()
+            for X_ in (Dc, Bc, Gc):  # rows removed by a partial discretisation keep explicitly stored zeros
+                X_.eliminate_zeros()
             res["cell_written"] = (np.diff(Dc.indptr) + np.diff(Bc.indptr)) > 0
             res["face_written"] = np.diff(Gc.indptr).reshape((nf, d)).sum(axis=1) > 0
             res["div_absmax"] = max(float(abs(Dm).max()) if Dm.nnz else 0.0, float(abs(Bm).max()) if Bm.nnz else 0.0)
@@ -436,8 +440,8 @@ def _scales(R, Ms):
     diam = float(np.linalg.norm(g.nodes.max(axis=1) - g.nodes.min(axis=1)))
     umax = float(np.abs(R["A"]).max()) * diam + float(np.abs(R["b"]).max())
     area = float(g.face_areas.max())
-    sdiv = max(amax, 1e-300) * max(umax, 1e-300) * area * 2 * d
-    sforce = max(amax, 1e-300) * max(abs(R["p"]), 1e-300) * area
+    sdiv = max(amax * umax * area * 2 * d, 1e-300)
+    sforce = max(amax * abs(R["p"]) * area, 1e-300)
     return sdiv, sforce
 
 
@@ -474,8 +478,10 @@ def oracle(case):
         written = res["cell_written"] if R["partial"] else np.ones(g.num_cells, bool)
         if R["partial"]:
             # a partial discretisation must at least write the rows of the cells it was asked to discretise ...
-            for c in case["spec_cells"]:
-                fs = g.cell_faces.tocsc().indices[g.cell_faces.tocsc().indptr[c]:g.cell_faces.tocsc().indptr[c + 1]]
+            nonzero_alpha = all(any(x != 0 for row in M_ for x in row) for M_ in Ms)
+            cfc = g.cell_faces.tocsc()
+            for c in (case["spec_cells"] if nonzero_alpha else []):
+                fs = cfc.indices[cfc.indptr[c]:cfc.indptr[c + 1]]
                 if not all(res["face_written"][f] for f in fs):
                     return {"what": f"partial discretisation of cells {case['spec_cells']} left scalar_gradient rows of a face of cell {c} empty ({cls}, {mode})",
                             "key": f"partial-face-rows-missing-{mode}"}
@@ -486,8 +492,8 @@ def oracle(case):
         err[~written] = 0.0
         if err.max(initial=0.0) > TOL:
             c = int(np.argmax(err))
-            return {"what": f"(div_u u + bound_div_u u_bc)[cell {c}] = {got[c]!r} but (alpha:A) V = {want[c]!r} (relative error {err[c]:.3g}; key {name} "
-                            f"{mode}, A={case['A']}, b={case['b']}, V={g.cell_volumes[c]!r}, {cls}, eta={case.get('eta')}, inverter={case.get('inverter')})",
+            return {"what": f"(div_u u + bound_div_u u_bc)[cell {c}] = {float(got[c])!r} but (alpha:A) V = {float(want[c])!r} (relative error {err[c]:.3g}; key {name} "
+                            f"{mode}, A={case['A']}, b={case['b']}, V={float(g.cell_volumes[c])!r}, {cls}, eta={case.get('eta')}, inverter={case.get('inverter')})",
                     "key": f"div_u-{d}d-{case['grid']['kind']}-{mode}" + ("-partial" if R["partial"] else "")}
         if uniform:
             al = aM[0]
